@@ -87,6 +87,8 @@ def gen_c01(rng):
     if kind == "pooled-user":
         mx = rng.choice([1, 2, 3])
         sv["pool"] = [mx, rng.randrange(0, mx + 1)]
+    if kind != "dispatcher" and rng.random() < 0.2:
+        sv["http11"] = True  # persistent connections
     methods = {}
     instance = {}
     clients = []
@@ -184,6 +186,21 @@ def gen_c01(rng):
         prog["instance"] = instance
     if kind != "dispatcher" and rng.random() < 0.1:
         prog["second_server"] = "early"  # a server on the other kind of listener lives in the same process
+    if kind == "dispatcher" and rng.random() < 0.25:
+        # nested exchanges: one client with a History; some of its calls go to a method that calls another one through
+        # a second proxy recording into the same History
+        del clients[1:]
+        clients[0]["history"] = True
+        extra = []
+        for k in range(rng.randint(1, 2)):
+            inner, outer = "inner_r%d" % k, "outer_r%d" % k
+            ret = gen_value(rng)
+            methods[inner] = {"kind": "const", "ret": ret}
+            methods[outer] = {"kind": "relay", "inner": inner, "ret": ret}
+            extra.append(["call", [outer], [gen_value(rng)]])
+        for op in extra:
+            clients[0]["ops"].insert(rng.randrange(len(clients[0]["ops"]) + 1), op)
+        prog["nested"] = True
     return prog
 
 
@@ -210,6 +227,10 @@ def analyse_c01(program, s, run, verdict):
             v.append(Violation("C01", "return-value", "raised:%s" % outcome[1], "%s %s raised %s instead of returning" % (where, name, outcome[1:])))
             return
         ret = specs[name]["ret"]
+        if specs[name]["kind"] == "relay":
+            # the relaying method hands its own arguments to the inner callable and wraps what that one returns
+            expected_calls[specs[name]["inner"]] = params
+            ret = ["relayed", ret]
         if not typed_equal(outcome[1], ret):
             v.append(Violation("C01", "return-value", "differs", "%s %r returned %r instead of %r" % (where, name, outcome[1], ret)))
 
@@ -276,6 +297,16 @@ def analyse_c01(program, s, run, verdict):
     by_req = {}
     for ent in h.wire:
         by_req.setdefault(ent["req"], []).append(ent)
+    if program.get("nested"):
+        # exchanges nest: the History holds the requests in the order they were sent and the responses in the order
+        # they were received
+        hist = run.histories.get(0)
+        if hist is not None:
+            if list(hist.requests) != [e["req"] for e in run.wire]:
+                v.append(Violation("C01", "history", "nested-request-order", "History.requests is not the sequence of requests in the order they were sent"))
+            if list(hist.responses) != [e["resp"] for e in run.wire_done]:
+                v.append(Violation("C01", "history", "nested-response-order", "History.responses is not the sequence of responses in the order they were received"))
+        return v, h
     for ci, hist in sorted(run.histories.items()):
         nops = sum((len(op[2]) if op[0] == "hcall" else 1) for op in program["clients"][ci]["ops"] if op[0] in ("call", "call2", "batch", "notify", "hcall"))
         if len(hist.requests) != nops or len(hist.responses) != nops:
@@ -427,6 +458,8 @@ def gen_c04(rng):
     sv = {"kind": kind, "family": rng.choice(["tcp", "unix"]), "version": rng.choice([2.0, 2.0, 1.0])}
     if kind == "pooled-user":
         sv["pool"] = [2, 0]
+    if kind != "dispatcher" and rng.random() < 0.2:
+        sv["http11"] = True  # persistent connections
     if rng.random() < 0.65:
         mx = rng.choice([1, 1, 2, 3])
         sv["npool"] = [mx, rng.randrange(0, mx + 1)]
@@ -712,6 +745,8 @@ def gen_c13_full(rng):
     if kind == "pooled-user":
         mx = rng.choice([2, 3, 4])
         sv["pool"] = [mx, rng.randrange(0, mx + 1)]
+    if kind != "dispatcher" and rng.random() < 0.2:
+        sv["http11"] = True  # persistent connections
     if rng.random() < 0.2:
         sv["npool"] = [2, 0]
     cd = rng.random()
@@ -786,6 +821,15 @@ def analyse_c13(program, s, run, verdict):
             v.append(Violation("C13", "history-independent", "reply-differs-from-fresh-server",
                                "reply %s differs from the reply of a fresh server to the same request %s (request %s)" % (
                                    ent["resp"][:120], str(ref)[:120], ent["req"][:80])))
+        # On a server configured for 1.0 both halves of the rule say the same: whatever was received - valid, invalid,
+        # not even JSON - every response object is in 1.0 form
+        if float(sver) < 2:
+            robjs0 = jnorm(ent["resp"])
+            for o in (robjs0 if isinstance(robjs0, list) else [robjs0]):
+                if isinstance(o, dict) and form_of(o) != "1.0":
+                    v.append(Violation("C13", "response-form", "1.0-server-answered-in-%s-form" % form_of(o),
+                                       "server version %s: request %s answered %s" % (sver, ent["req"][:100], json.dumps(o)[:120])))
+                    break
         # the explicit form rule, for structurally valid request entries
         try:
             req = json.loads(ent["req"])
@@ -800,7 +844,12 @@ def analyse_c13(program, s, run, verdict):
                 by_id.setdefault(json.dumps(o.get("id")), []).append(o)
         for e in entries:
             if classify_entry(e) != "call":
-                continue
+                # an invalid entry that carries "jsonrpc" and an id is answered in the server's own form too (an invalid
+                # entry *without* "jsonrpc" is not judged on a 2.0 server: the library, and the examples of the 2.0
+                # specification in its test suite, answer it in the server's form)
+                if not (isinstance(e, dict) and "jsonrpc" in e and isinstance(e.get("id"), (str, int)) and
+                        not isinstance(e.get("id"), bool) and classify_entry(e) == "invalid"):
+                    continue
             rid = json.dumps(e["id"]) if isinstance(e["id"], (str, int)) else None
             objs = by_id.get(rid, []) if rid is not None else []
             if not isinstance(req, list) and isinstance(resp, dict):
